@@ -6,7 +6,7 @@
    (evidence: tested, not proved). *)
 From Coq Require Import List NArith ZArith Bool String Permutation.
 From Verif Require Import Model.Analyzer Gen.GenStages Proofs.AnalyzerProofs Base.Text Model.Scope Proofs.ScopeProofs Gen.GenRules Model.Rules Proofs.RulesProofs.
-From Verif Require Gen.GenDataDecl Proofs.DataDeclGen Model.ExprKind Proofs.ExprKindProofs Model.DataDecl Proofs.DataDeclProofs Proofs.DataDeclComplete.
+From Verif Require Model.DeclRules Proofs.DeclRulesProofs Gen.GenDataDecl Proofs.DataDeclGen Model.ExprKind Proofs.ExprKindProofs Model.DataDecl Proofs.DataDeclProofs Proofs.DataDeclComplete.
 Import ListNotations.
 
 (* P0003 / P0005: the scan reports nothing exactly when the names are pairwise distinct, and the verdict
@@ -196,3 +196,24 @@ Theorem C02_alias_resolution_model_is_the_source :
   GenDataDecl.gen_fold = map (fun d => (DataDeclGen.ndata_name d, DataDeclGen.ndata_result d))
                              [DataDecl.NdKind DataDecl.DkSimple; DataDecl.NdKind DataDecl.DkEnum; DataDecl.NdKind DataDecl.DkStruct; DataDecl.NdLate; DataDecl.NdUnspec].
 Proof. exact DataDeclGen.model_is_the_source. Qed.
+
+(* the three rules on type declarations, with the declarations of a whole library (Model/DeclRules.v): accepted exactly when
+   every structure has pairwise distinct element names, every enumeration pairwise distinct values (as identifiers), every
+   subrange its minimum strictly below its maximum *)
+Theorem C02_struct_rule_exact : forall fs,
+  DeclRules.rule_struct_unique fs = [] <-> forall nm els, In (DeclRules.TyStruct nm els) fs -> NoDup (map DeclRules.ikey els).
+Proof. exact DeclRulesProofs.rule_struct_exact. Qed.
+
+Theorem C02_enum_rule_exact : forall fs,
+  DeclRules.rule_enum_unique fs = [] <-> forall vs, In (DeclRules.TyEnum vs) fs -> NoDup (map DeclRules.ikey vs).
+Proof. exact DeclRulesProofs.rule_enum_exact. Qed.
+
+Theorem C02_subrange_rule_exact : forall fs,
+  DeclRules.rule_subrange_limits fs = [] <-> forall lo hi ls hs, In (DeclRules.TySub lo hi ls hs) fs -> (sval lo < sval hi)%Z.
+Proof. exact DeclRulesProofs.rule_subrange_exact. Qed.
+
+(* every element with an earlier namesake has its own diagnostic *)
+Theorem C02_every_repeated_element_reported : forall mk l a f b x c,
+  l = a ++ f :: b ++ x :: c -> DeclRules.ikey f = DeclRules.ikey x -> (forall y, In y a -> DeclRules.ikey y <> DeclRules.ikey x) ->
+  In (mk f x) (DeclRules.scan mk [] l).
+Proof. exact DeclRulesProofs.scan_complete. Qed.
